@@ -26,6 +26,8 @@ func main() {
 				f.WriteTo(os.Stdout)
 			}
 		}
+	case "bindings":
+		os.Exit(cmdBindings(os.Args[2:]))
 	case "replay":
 		os.Exit(cmdReplay(os.Args[2:]))
 	default:
@@ -54,6 +56,7 @@ func setup(repo, tier string) *Prog {
 		fmt.Fprintln(os.Stderr, "raw specs:", err)
 	}
 	p.loadSpecSigs()
+	p.loadBindings(vd + "/bindings.json")
 	p.buildSCC()
 	func() {
 		defer func() {
